@@ -1,12 +1,12 @@
-/-! Executable model for property C04 (core-only).  Not built yet: the driver answers
-    `unimplemented` so that a check of this property cannot pass by accident. -/
+import FpgoVerif.Model.C04Judge
+/-! Executable model for property C04 (core-only): see `C04Spec` (element-level specification),
+    `C04World` (storage-level model of stream.go / streamForInterface.go), `C04Proto` (programs, protocol). -/
 namespace FpgoVerif.C04
 
 /-- one protocol case line in, one canonical observation line out -/
-def handle (_line : String) : String := "unimplemented"
+def handle (line : String) : String := runCase line
 
-/-- spec-level oracle: given the case line and the observation printed by the real code, decide
-    whether the *property* is violated (`violation <why>`) or not (`allowed <why>`). -/
-def judge (_line _impl : String) : String := "violation model-and-implementation-disagree"
+/-- spec-level oracle on the observation of the real code (see `C04Judge`) -/
+def judge (line impl : String) : String := Judge.judgeCase line impl
 
 end FpgoVerif.C04
